@@ -91,6 +91,11 @@ pub struct StreamSc {
     pub faults: Vec<String>,
     /// `Context` handed to `parse_in` by the `ParseIn` entry: 0 None, 1 Array, 2 ObjectKey, 3 ObjectValue
     pub context: u8,
+    /// `Iterator::size_hint` of the simulated stream (iterator entries only): 0 = the default `(0, None)`;
+    /// 1 = exact `(n, Some(n))`; 2 = an endless stream: after the events it yields U+0000 for ever and
+    /// reports `(usize::MAX, None)`, like `iter::repeat` (U+0000 is rejected in every parser state, so a
+    /// correct parser still terminates)
+    pub hint: u8,
 }
 
 impl StreamSc {
@@ -156,6 +161,7 @@ impl StreamSc {
         }
         o.push(("faults".into(), J::Arr(self.faults.iter().map(|s| J::Str(s.clone())).collect())));
         if self.entry == Entry::ParseIn { o.push(("context".into(), J::UInt(self.context as u64))); }
+        if self.hint != 0 { o.push(("size_hint_mode".into(), J::UInt(self.hint as u64))); }
         J::Obj(o)
     }
 
@@ -186,12 +192,13 @@ impl StreamSc {
         };
         let faults = j.get("faults").and_then(J::as_arr).map(|a| a.iter().filter_map(|x| x.as_str().map(String::from)).collect()).unwrap_or_default();
         let context = j.get("context").and_then(J::as_u64).unwrap_or(0) as u8;
-        Ok(StreamSc { entry, target, opts, src, faults, context })
+        let hint = j.get("size_hint_mode").and_then(J::as_u64).unwrap_or(0) as u8;
+        Ok(StreamSc { entry, target, opts, src, faults, context, hint })
     }
 
     pub fn digest(&self) -> u64 {
         let mut d = Digest::default();
-        d.u8(self.entry as u8); d.u8(self.target as u8); if self.entry == Entry::ParseIn { d.u8(self.context) }
+        d.u8(self.entry as u8); d.u8(self.target as u8); if self.entry == Entry::ParseIn { d.u8(self.context) } d.u8(self.hint);
         if self.entry.takes_options() { d.u8(self.opts.0 as u8 | (self.opts.1 as u8) << 1); } else { d.u8(0) }
         match &self.src {
             Src::Events(evs) => for e in evs { match e { Ev::Item(c, l) => { d.u64((*c as u64) << 8 | *l as u64) } Ev::Fail(i) => d.u64(1 << 40 | *i as u64), Ev::End => d.u64(2 << 40) } },
@@ -215,17 +222,22 @@ pub struct SimStream<'a> {
     pub polls: usize,
     pub polls_after_exhaustion: usize,
     limit: usize,
+    hint: u8,
 }
 
 impl<'a> SimStream<'a> {
-    pub fn new(evs: &'a [Ev]) -> Self { SimStream { evs, i: 0, polls: 0, polls_after_exhaustion: 0, limit: evs.len() + 10_000 } }
+    pub fn new(evs: &'a [Ev]) -> Self { SimStream { evs, i: 0, polls: 0, polls_after_exhaustion: 0, limit: evs.len() + 10_000, hint: 0 } }
+    pub fn with_hint(evs: &'a [Ev], hint: u8) -> Self { SimStream { hint, ..SimStream::new(evs) } }
+    fn hint(&self) -> (usize, Option<usize>) {
+        match self.hint { 1 => { let n = self.evs[self.i.min(self.evs.len())..].iter().take_while(|e| matches!(e, Ev::Item(..))).count(); (n, Some(n)) } 2 => (usize::MAX, None), _ => (0, None) }
+    }
     #[inline]
     fn pull(&mut self) -> Option<Result<(char, u32), u32>> {
         self.polls += 1;
         if self.polls > self.limit { std::panic::panic_any(SpinDetected); }
         match self.evs.get(self.i) {
             Some(ev) => { self.i += 1; match *ev { Ev::Item(c, l) => Some(Ok((c, l))), Ev::Fail(id) => Some(Err(id)), Ev::End => None } }
-            None => { self.polls_after_exhaustion += 1; None }
+            None => { self.polls_after_exhaustion += 1; if self.hint == 2 { Some(Ok(('\u{0}', 1))) } else { None } }
         }
     }
     /// Number of events the parser has consumed.
@@ -236,12 +248,14 @@ pub struct AsDecoded<'s, 'a>(pub &'s mut SimStream<'a>);
 impl<'s, 'a> Iterator for AsDecoded<'s, 'a> {
     type Item = Result<DecodedChar, u32>;
     #[inline]
+    fn size_hint(&self) -> (usize, Option<usize>) { self.0.hint() }
     fn next(&mut self) -> Option<Self::Item> { self.0.pull().map(|r| r.map(|(c, l)| DecodedChar::new(c, l as usize))) }
 }
 pub struct AsChars<'s, 'a>(pub &'s mut SimStream<'a>);
 impl<'s, 'a> Iterator for AsChars<'s, 'a> {
     type Item = Result<char, u32>;
     #[inline]
+    fn size_hint(&self) -> (usize, Option<usize>) { self.0.hint() }
     fn next(&mut self) -> Option<Self::Item> { self.0.pull().map(|r| r.map(|(c, _)| c)) }
 }
 /// Infallible views: a `Fail` event cannot be expressed; scenarios are normalised so that none occurs.
@@ -249,12 +263,14 @@ pub struct AsDecodedInf<'s, 'a>(pub &'s mut SimStream<'a>);
 impl<'s, 'a> Iterator for AsDecodedInf<'s, 'a> {
     type Item = DecodedChar;
     #[inline]
+    fn size_hint(&self) -> (usize, Option<usize>) { self.0.hint() }
     fn next(&mut self) -> Option<Self::Item> { match self.0.pull() { Some(Ok((c, l))) => Some(DecodedChar::new(c, l as usize)), _ => None } }
 }
 pub struct AsCharsInf<'s, 'a>(pub &'s mut SimStream<'a>);
 impl<'s, 'a> Iterator for AsCharsInf<'s, 'a> {
     type Item = char;
     #[inline]
+    fn size_hint(&self) -> (usize, Option<usize>) { self.0.hint() }
     fn next(&mut self) -> Option<Self::Item> { match self.0.pull() { Some(Ok((c, _))) => Some(c), _ => None } }
 }
 
